@@ -910,3 +910,21 @@ func SlowClientOverflow(name string, size, bound int) *world.Scenario {
 	}
 	return sc
 }
+
+// SlowBackendBatch: several fragments for one node are queued by ONE loop round (one chunk with n split MSETs) and leave
+// in one vectored write to a node that reads slowly: the write is accepted in part (cut in any fragment), the rest is
+// parked and drained by writable events. The node must receive exactly the fragments, in order.
+func SlowBackendBatch(name string, n, size, bound int) *world.Scenario {
+	sc := SlowBackendOverflow(name, n, size, bound)
+	cs := sc.Clients[0]
+	var all []byte
+	for _, c := range cs.Chunks {
+		all = append(all, c.Data...)
+	}
+	cs.Chunks = []world.Chunk{{Data: all}}
+	sc.Clients = []world.ClientSpec{cs}
+	sc.WriteCap, sc.ReadCap = 256, 65536
+	sc.Family = "slow-backend-batch"
+	sc.Name = fmt.Sprintf("%s/slow-backend-batch/%dx%dB-in-one-write/d%d", name, n, size, bound)
+	return sc
+}
